@@ -25,3 +25,23 @@ Definition emitted_names (kw : list string) (ports locals : list string) : list 
 (* py4hw's list has no entry that starts with one of the generator's own prefixes *)
 Definition kw_ok (kw : list string) : Prop :=
   forall k, In k kw -> has_prefix "w_" k = false /\ has_prefix "reserved_" k = false.
+
+(* ---------------------------------------------------------------- appended in session 5: the whole module name space
+   getInstanceName(ins) = "i_" + ins.name                                   (rtl_generation.py:58-59; NOT passed through
+                                                                              getValidVerilogName)
+   createModuleHeader: a module with a clockable descendant declares the implicit `input <clock name>` FIRST, under the raw
+   name returned by getClockPortName (the clock driver's name, `clk` for Reg) — not passed through getValidVerilogName
+   either; then the ports (getPortName), then the body declares the local wires ("w_"+name) and one instance per
+   non-inlined child.  Nets, ports and instances share one name space (IEEE 1364-2005 4.11). *)
+Definition inst_name (n : string) : string := String.append "i_" n.
+
+(* clk = Some c : the scope has a clockable descendant and its clock port is called c;  insts = names of the non-inlined children *)
+Definition emitted_names_full (kw : list string) (clk : option string) (ports locals insts : list string) : list string :=
+  (match clk with Some c => [c] | None => [] end) ++ emitted_names kw ports locals ++ map inst_name insts.
+
+(* a source name that starts with none of the generator's own prefixes *)
+Definition no_gen_prefix (n : string) : Prop :=
+  has_prefix "w_" n = false /\ has_prefix "i_" n = false /\ has_prefix "reserved_" n = false.
+
+(* py4hw's keyword list has no entry that starts with one of the three prefixes *)
+Definition kw_ok_full (kw : list string) : Prop := forall k, In k kw -> no_gen_prefix k.
